@@ -16,7 +16,7 @@ HERE = os.path.dirname(os.path.abspath(__file__))
 sys.path.insert(0, HERE)
 import asm2lean as G  # noqa: E402
 
-TARGETS = ["SodiumModel.Properties.C05Asm", "SodiumModel.Properties.C05Asm2"]
+TARGETS = ["SodiumModel.Properties.C05Asm", "SodiumModel.Properties.C05Asm2", "SodiumModel.Properties.C05Asm3"]
 TARGET = " + ".join(TARGETS)
 GEN_REL = os.path.join("Generated", "Sandy2xAsm.lean")
 
